@@ -150,6 +150,13 @@ func c17Check(cfg RouterCfg, hist []Op, r *Router, t *ref.Table, c *explore.Chil
 		if pc := PanicClass(pv); pc != "error" {
 			rep("C17.error-value", "panic-not-error:"+pc, fmt.Sprintf("panic(%T): %v", pv, pv), "panic with an error value")
 		}
+		if verdict == ref.Reject {
+			// a rejected call leaves nothing behind - in particular nothing that lets the same call through next time
+			if _, again := Guard(func() { r2.Handle(x.P, hv.Route("h:rejected"), nil, x.Ms...) }); !again {
+				rep("C17.rejected", "accepted-on-second-attempt:"+why, "the same Handle call, rejected a moment ago, returned normally", "rejected again ("+why+")")
+				continue
+			}
+		}
 		if explore.Key(r2) == kb {
 			continue // the private object graph is unchanged, so is everything observable (it is a function of that graph)
 		}
@@ -238,6 +245,27 @@ func c17NameAlphabet() []Op {
 var c17NameSpec = &histSpec{Prop: "C17", Alphabet: c17NameAlphabet, Check: func(cfg RouterCfg, hist []Op, r *Router, t *ref.Table, c *explore.Child, outc map[string]struct{}) {
 	pool := append(append([]string{}, c17NamePool...), "/p/{x}/bd", "/p/{y}/bc", "/p/{y}/q", "/p/{y}/b", "/p/{x}/b")
 	paths := []string{"/p/1/bc", "/p/1/bd", "/p/1/q", "/p/1/b/bc", "/p/1/b/bd", "/p/1/bc/bd", "/p/1/b", "/p/1/b/q"}
+	c17Check(cfg, hist, r, t, c, outc, pool, paths)
+}}
+
+// c17EmptyRulePool: the empty-rule spelling {x:} of a named parameter, with routes that split the text after it. A
+// same-shape pattern written {u:} is a rename exactly when its whole text matches a live route's.
+var c17EmptyRulePool = []string{"/p/{x:}/aab", "/p/{x:}/ac", "/p/{x:}/ab"}
+
+func c17EmptyRuleAlphabet() []Op {
+	var ops []Op
+	for _, p := range c17EmptyRulePool {
+		ops = append(ops, Op{K: "handle", P: p, Ms: []string{"GET"}})
+	}
+	for _, p := range c17EmptyRulePool {
+		ops = append(ops, Op{K: "remove", P: p})
+	}
+	return ops
+}
+
+var c17EmptyRuleSpec = &histSpec{Prop: "C17", Alphabet: c17EmptyRuleAlphabet, Check: func(cfg RouterCfg, hist []Op, r *Router, t *ref.Table, c *explore.Child, outc map[string]struct{}) {
+	pool := append(append([]string{}, c17EmptyRulePool...), "/p/{u:}/ab", "/p/{u:}/aab", "/p/{u:}/ac", "/p/{u:}/a", "/p/{u:}/b", "/p/{u:}/aa")
+	paths := []string{"/p/1/aab", "/p/1/ac", "/p/1/ab", "/p/1/a/ab", "/p/1/a", "/p/1/b"}
 	c17Check(cfg, hist, r, t, c, outc, pool, paths)
 }}
 
@@ -513,6 +541,7 @@ func init() {
 	c17Spec.register("c17/expand")
 	c17RuleSpec.register("c17/expand-rules")
 	c17NameSpec.register("c17/expand-names")
+	c17EmptyRuleSpec.register("c17/expand-emptyrule")
 	explore.RegisterJob("c17/pairs", pairJob)
 	explore.RegisterJob("c17/exotic", exoticJob)
 	explore.Register(&explore.Check{ID: "C17", Run: func(rc *explore.RunCtx) {
@@ -526,6 +555,7 @@ func init() {
 			"in every state every call of the rejected-call set X (duplicates, method lists with duplicate/unknown/reserved members in any position, malformed patterns sharing a prefix with live routes, rename-only patterns) is performed on a replayed copy; Routes(), all dispatch outcomes incl. Allow headers and OPTIONS * are compared before/after",
 			"a second history family (depth+1, interceptors I1) over routes below regexp and interceptor parameters that split and re-join the literal text after the parameter; in every state renames of live routes must be rejected and same-shape patterns with a different rule (and every other valid call of X with the list [POST GET]) must be accepted",
 			"a third history family (depth+1) over /p/{x}/bc, /p/{y}/bd, /p/{x}/q: calls that rename one live route to the parameter name of another (rejected as ambiguous after walking the other route's node) must leave values such as /p/1/b/bc resolved as before",
+			"a fourth family (depth+1) over /p/{x:}/aab, /p/{x:}/ac, /p/{x:}/ab (the empty-rule spelling, text after it split between routes) with calls spelled {u:}; every rejected call is repeated at once and must be rejected again",
 			"every ordered pair of patterns built from <=2 of 19 unusual tokens (empty rule {a:}, braces inside a rule, '-' flag, literals sharing the first bytes of a multi-byte character): a rejected second call is an error value and changes nothing; where both spellings are within the documented syntax, a rename-only twin is rejected and anything else accepted",
 			"positive clauses: every ordered pair over the dispatch pool and its renamed / '-'-flipped variants under I0/I1/I2")
 		for _, cfg := range []RouterCfg{{}, {Trace: true}} {
@@ -535,6 +565,7 @@ func init() {
 		explore.BFS(rc, "c17/expand-rules", histCfg{Router: RouterCfg{IC: "I1"}}, depth+1, true, "C17 constrained-parameter histories")
 		// routes that differ in the parameter name: a rename of one to the other's name is rejected and walks the other's node
 		explore.BFS(rc, "c17/expand-names", histCfg{Router: RouterCfg{}}, depth+1, true, "C17 cross-renamed parameters")
+		explore.BFS(rc, "c17/expand-emptyrule", histCfg{Router: RouterCfg{}}, depth+1, true, "C17 empty-rule parameters below split nodes")
 		var items []pairItem
 		for _, ic := range []string{"", "I1", "I2"} {
 			pool := c17PairPool(ic)
